@@ -839,6 +839,45 @@ Section RegionFacts.
       + rewrite <- B1. destruct c1; reflexivity.
   Qed.
 
+  (* rfbNewFramebuffer re-establishes the invariant of a client from scratch: only its requested
+     region is kept *)
+  Lemma newfb_client_inv w h F c :
+    0 < w -> 0 < h -> WF (cR c) -> InvC w h F (newfb_client w h c).
+  Proof.
+    intros Hw Hh HWR.
+    assert (Hr : WF (rgn_create_rect 0 0 w h)) by (apply create_rect_wf; lia).
+    set (c1 := set_regions c (rgn_create_rect 0 0 w h) rgn_empty 0 0 (cR c)).
+    assert (I1 : InvCore w h F c1).
+    { unfold c1. destruct c; csimpl. constructor; csimpl; try apply WF_empty; try assumption.
+      - intros x y Hm. rewrite create_rect_mem in Hm. unfold rect_mem, inS in *. lia.
+      - intros x y Hm. rewrite rgn_mem_empty in Hm. discriminate.
+      - right. intros x y Hxy. rewrite create_rect_mem. unfold rect_mem, inS in *. lia.
+      - intros _ _ x y Hxy Hm. rewrite create_rect_mem in Hm. unfold rect_mem, inS in *. lia. }
+    unfold newfb_client. fold c1.
+    destruct (cUseNewFB c1) eqn:Eu.
+    - split.
+      + apply (core_ext _ _ _ c1); try (destruct c; reflexivity). apply I1.
+      + right. unfold c1 in *. destruct c; csimpl. split; [exact Eu|reflexivity].
+    - split; [apply core_resize; apply I1|apply resize_size].
+  Qed.
+
+  Lemma rescale_client_R w h oW oH chain c : cR (snd (rescale_client w h oW oH chain c)) = cR c.
+  Proof.
+    unfold rescale_client. destruct (cScaled c) as [[sw sh]|]; [|reflexivity].
+    match goal with |- context [if ?b then _ else _] => destruct b end; destruct c; reflexivity.
+  Qed.
+
+  Lemma rescale_clients_R w h oW oH l : forall chain,
+    Forall (fun c => WF (cR c)) l -> Forall (fun c => WF (cR c)) (snd (rescale_clients w h oW oH l chain)).
+  Proof.
+    induction l as [|c l IH]; intros chain Hl; [constructor|].
+    inversion Hl; subst. cbn [rescale_clients].
+    pose proof (rescale_client_R w h oW oH chain c) as Ec.
+    destruct (rescale_client w h oW oH chain c) as [ch1 c'].
+    specialize (IH ch1 H2). destruct (rescale_clients w h oW oH l ch1) as [ch2 t']. cbn [snd] in *.
+    constructor; [rewrite Ec; assumption|exact IH].
+  Qed.
+
   Lemma step_inv st o st' out : Inv st -> op_ok st o -> step st o = Some (st', out) -> Inv st'.
   Proof.
     intros HI Hok Hs. pose proof HI as (HW & HH & Hcur & Hcl).
@@ -992,24 +1031,14 @@ Section RegionFacts.
     - (* NewFB *)
       destruct ((0 <? w) && (0 <? h) && ((bpp =? 1) || (bpp =? 2) || (bpp =? 4))) eqn:Eok; [|discriminate].
       inversion Hs; subst. clear Hs.
-      unfold Inv, newfb_state. cbn [sW sH sCursor sClients].
+      unfold Inv, newfb_state.
+      pose proof (rescale_clients_R w h (sW st) (sH st) (rev (sClients st)) []) as HR.
+      destruct (rescale_clients w h (sW st) (sH st) (rev (sClients st)) []) as [chain rcl].
+      cbn [sW sH sCursor sClients snd] in *.
       split; [lia|]. split; [lia|]. split; [exact Hcur|].
-      apply Forall_map. eapply Forall_impl; [|exact Hcl]. intros c [I S].
-      assert (Hr : WF (rgn_create_rect 0 0 w h)) by (apply create_rect_wf; lia).
-      pose proof (iWR _ _ _ _ I) as HWR.
-      set (c1 := set_regions c (rgn_create_rect 0 0 w h) rgn_empty 0 0 (cR c)).
-      assert (I1 : forall F, InvCore w h F c1).
-      { intros F. unfold c1. destruct c; csimpl. constructor; csimpl; try apply WF_empty; try assumption.
-        - intros x y Hm. rewrite create_rect_mem in Hm. unfold rect_mem, inS in *. lia.
-        - intros x y Hm. rewrite rgn_mem_empty in Hm. discriminate.
-        - right. intros x y Hxy. rewrite create_rect_mem. unfold rect_mem, inS in *. lia.
-        - intros _ _ x y Hxy Hm. rewrite create_rect_mem in Hm. unfold rect_mem, inS in *. lia. }
-      unfold newfb_client. fold c1.
-      destruct (cUseNewFB c1) eqn:Eu.
-      + split.
-        * apply (core_ext _ _ _ c1); try (destruct c; reflexivity). apply I1.
-        * right. unfold c1 in *. destruct c; csimpl. split; [exact Eu|reflexivity].
-      + split; [apply core_resize; apply I1|apply resize_size].
+      apply Forall_map. apply Forall_rev. eapply Forall_impl; [|apply HR].
+      + intros c HWR. apply newfb_client_inv; [lia|lia|exact HWR].
+      + apply Forall_rev. eapply Forall_impl; [|exact Hcl]. intros c [I _]. apply (iWR _ _ _ _ I).
     - (* SetDesktopSize *)
       destruct (c <? length (sClients st))%nat; [|discriminate].
       destruct (nscreens =? 0); inversion Hs; subst; [exact HI|].
